@@ -102,6 +102,14 @@ SUMMARY = {
  'C13-agent10': 'B2 error bodies only read when DEBUG logging is on: delete of a missing name dies with httpx.ResponseNotRead',
  'C14-agent10': 'zero-length ranges neither written nor restored: an empty file recorded with a [0,0] range is never created',
  'C18-agent10': 'cache entry hashed from one read and used from a second, unverified read: a concurrent writer truncating the entry in between',
+ 'C01-agent11': '"resumable restore": a target file that already has the recorded size and mtime is taken for restored and left alone',
+ 'C04-agent11': 'chunk verification moved into a helper that uses assert: under python -O unencrypted chunks are not verified at all',
+ 'C06-agent11': 'pass-phrases NFKC-normalised before the KDF: visibly different pass-phrases (2 vs superscript 2, full-width letters) unlock the same key',
+ 'C10-agent11': 'the chunker fetches the next piece before copying the current one into its buffer: producers that recycle their buffer lose data',
+ 'C15-agent11': 'restore builds the target path with PureWindowsPath: a backslash in a POSIX file name becomes a directory separator',
+ 'C16-agent11': 'aiter_chunks reads ahead in the default executor: a read still in flight when a retry rewinds the stream eats the first block of the retried body',
+ 'C17-agent11': 'unlock refuses scrypt keys above 1 GiB of work memory, init / add-key still issue them',
+ 'C20-agent11': 'debts below one millisecond are dropped instead of accumulated: many small blocks (or concurrency >= 63) are never throttled',
  'C20-agent1': 'transfer block size floor of 16000 bytes: below 32 kB/s each block owes more than the capped debt',
 }
 rows = []
